@@ -7,7 +7,7 @@ from jugverif import core, graphcheck as G, genprog
 LEVEL = 'proof'
 THEOREMS = ['Jug.C15.classify_spec', 'Jug.C15.totals_add_up', 'Jug.C15.cached_eq_uncached', 'Jug.C15.check_iff', 'Jug.C15.classifier_table_matches', 'Jug.C15.graph_classifier_eq',
             'Jug.C15.short_all_complete_iff', 'Jug.C15.short_all_complete_count',
-            'Jug.MemoProps.memo_truthful', 'Jug.MemoProps.lock_seen_through_wrapper', 'Jug.MemoProps.classify_through_wrappers', 'Jug.MemoProps.locked_answers_constant', 'Jug.MemoProps.failed_sticky', 'Jug.MemoProps.canLoad_truthful']
+            'Jug.MemoProps.memo_truthful', 'Jug.MemoProps.lock_seen_through_wrapper', 'Jug.MemoProps.classify_through_wrappers', 'Jug.MemoProps.locked_answers_constant', 'Jug.MemoProps.failed_sticky', 'Jug.MemoProps.canLoad_truthful', 'Jug.MemoProps.canLoadRun_truthful', 'Jug.MemoProps.canLoadRun_asks_once', 'Jug.MemoProps.canLoadRun_lookups_le']
 
 
 def extract():
@@ -198,12 +198,75 @@ def check(run):
                         run.obligation('correspondence status/check model=code', False, 'model check %s; code rc %s; case %s' % (ans['check'], rc, json.dumps(rp)[:300]))
             core.rm_rf(d)
         memo_family(run, drv, scratch, rng, quick)
+        canload_family(run, drv, scratch, rng, quick)
         if drv is not None and run.corr_disagreements == 0:
             run.obligation('correspondence: %d printed status tables / check exit codes equal the model' % run.corr_programs, True)
     finally:
         core.rm_rf(scratch)
         if drv is not None:
             drv.close()
+
+
+class _CountingBase:
+    """the wrapped backend with its can_load calls recorded (everything else goes straight through)"""
+
+    def __init__(self, base):
+        self._base = base
+        self.asked = []
+
+    def can_load(self, name):
+        self.asked.append(name)
+        return self._base.can_load(name)
+
+    def __getattr__(self, a):
+        return getattr(self._base, a)
+
+
+def canload_family(run, drv, scratch, rng, quick):
+    """whole runs of can_load() through the memoizing wrapper on real backends against Jug.Memo.canLoadRun: the answers, and the names for which the wrapped
+    backend was asked, in order. Independent of the model: every answer is the backend's (canLoadRun_truthful) and no name is looked up twice (canLoadRun_asks_once)"""
+    from jug.backends.memoize_store import memoize_store
+    from jugverif import storecheck
+    kinds = ['file', 'dict', 'redis']
+    bad = 0
+    for i in range(45 if quick else 450):
+        kind = kinds[i % 3]
+        d = os.path.join(scratch, 'canload-%d' % i)
+        os.makedirs(d, exist_ok=True)
+        cfg = storecheck.Cfg(kind, d)
+        base = cfg.open()
+        universe = list(range(rng.randint(1, 6)))
+        present = [n for n in universe if rng.random() < 0.5]
+        nm = lambda n: ('%02x' % (n * 37 % 256) + 'c0ffee%032d' % n).encode()
+        for n in present:
+            base.dump({'v': n}, nm(n))
+        list_base = rng.random() < 0.4
+        names = [rng.choice(universe) for _ in range(rng.randint(1, 12))]
+        cb = _CountingBase(cfg.open() if cfg.can_reopen else base)
+        ms = memoize_store(cb, list_base=list_base)
+        del cb.asked[:]
+        got = [bool(ms.can_load(nm(n))) for n in names]
+        back = {nm(n): n for n in universe}
+        asked = [back.get(a, -1) for a in cb.asked]
+        run.case(('canload', kind, list_base, len(set(names)) < len(names), bool(present)), nontrivial=True)
+        run.count('canload_runs')
+        rp = {'kind': 'memoized-can-load', 'backend': kind, 'list_base': list_base, 'present': present, 'names': names}
+        want = [n in present for n in names]
+        if got != want:
+            run.fail('memoized-can-load-misreported', '%s store seen through the memoizing store of `jug status` (list_base=%s): results present for %s; can_load of %s answers %s, the truth is %s'
+                     % (kind, list_base, present, names, got, want), rp)
+        elif len(set(asked)) != len(asked):
+            run.fail('memoized-can-load-repeats-lookup', '%s store seen through the memoizing store (list_base=%s): can_load of %s asked the wrapped backend for %s - a name is looked up more than once'
+                     % (kind, list_base, names, asked), rp)
+        if drv is not None:
+            ans = drv.ask({'op': 'canloadrun', 'present': present, 'listing': bool(list_base and hasattr(base, 'list')), 'names': names})
+            run.corr_programs += 1
+            if ans.get('answers') != got or ans.get('asked') != asked:
+                bad += 1
+                if bad <= 3:
+                    run.corr_disagreements += 1
+                    run.obligation('correspondence memoizing can_load model=code', False, 'model %s / asked %s, code %s / asked %s; case %s' % (ans.get('answers'), ans.get('asked'), got, asked, json.dumps(rp)[:300]))
+        core.rm_rf(d)
 
 
 def memo_family(run, drv, scratch, rng, quick):
